@@ -3,4 +3,4 @@ Require Import FastZ.
 From Dashu Require Import Base.Prelude Cross.PanicSpec Cross.PanicAsis.
 Extraction "model.ml"
   documented may exp_band accepts asis known asis_predicts farey_asis auto_prec_zero pow_related
-  with_base_asis preason_beq outcome_beq.
+  with_base_asis preason_beq outcome_beq ndig opdiv_long.
